@@ -132,10 +132,13 @@ package transport
 //@   modifies *
 //@   preserves comp(TraditionalDnsConn.res)
 //@   ensures calls(onceDo) == 1
-//@ func (dc *TraditionalDnsConn) CloseWithErr$Do [C07]
+//@ func (dc *TraditionalDnsConn) CloseWithErr$Do [C07, C02]
 //@   requires dc != nil && err != nil
 //@   modifies *
 //@   preserves comp(TraditionalDnsConn.res)
+// (C02) closing never takes a reply back: what the reader handed to a waiter stays in the waiter's
+// channel (exchange looks there again after the close notification) and no buffer is released here
+//@   ensures[C02] calls(chanRecv) == 0 && calls(pollEmpty) == 0 && calls(ReleaseBuf) == 0
 //@   ensures calls(chanClose) == 1 && arg(chanClose, 0, 0) == dc.closeNotify && calls(Close) == 1 && arg(Close, 0, 0) == dc.c
 //@   ensures calls(Store) == 1 && arg(Store, 0, 1) == true && callpos(Store, 0) < callpos(chanClose, 0) && callpos(Store, 0) < callpos(Close, 0)
 //@   ensures closed(dc.closeNotify)
@@ -162,11 +165,15 @@ package transport
 //@   ensures[C01] result_0 != nil ==> calls(addQueueC) == 1 && lastarg(chanRecv, 0) == ret(addQueueC, 0, 1) && result_0 == lastret(chanRecv, 0)
 //@   ensures[C01] calls(addQueueC) <= 1 && (calls(addQueueC) == 1 && ret(addQueueC, 0, 1) != nil ==> calls(deleteQueueC) == 1 && arg(deleteQueueC, 0, 1) == ret(addQueueC, 0, 0))
 //@   ensures[C01] calls(writeQuery) >= 1 ==> arg(writeQuery, 0, 1) == q && arg(writeQuery, 0, 2) == ret(addQueueC, 0, 0)
+//@   ensures[C01] calls(Write) == 0
 //@   ensures[C02] calls(writeQuery) >= 1 ==> calls(addQueueC) == 1 && ret(addQueueC, 0, 1) != nil && callpos(addQueueC, 0) < callpos(writeQuery, 0)
 //@   ensures[C02] result_0 == nil && !closed(ctx.Done()) && calls(addQueueC) == 1 && ret(addQueueC, 0, 1) != nil && lastpos(chanRecv) > callpos(addQueueC, 0) && lastarg(chanRecv, 0) == dc.closeNotify ==> lastpos(pollEmpty) > lastpos(chanRecv) && lastarg(pollEmpty, 0) == ret(addQueueC, 0, 1)
 //@   loop 0:
 //@     invariant dc != nil && len(q) >= 12 && respChan != nil
 //@     each[C01] iter_calls(writeQuery) <= 1 && (iter_calls(writeQuery) == 1 ==> iter_arg(writeQuery, 0, 1) == q && iter_arg(writeQuery, 0, 2) == assignedQid)
+// (C01) the connection is written only through writeQuery, which puts the assigned wire id into
+// the copy it sends: exchange never writes the caller's bytes (with the caller's id) itself
+//@     each[C01] iter_calls(Write) == 0
 // (C07) the read deadline is armed once, when the connection starts waiting for replies: a UDP
 // re-send never pushes it forward, so a silent server is given up after waitingReplyTimeout
 //@     each[C07] iter_calls(SetReadDeadline) == 0 && iter_calls(CompareAndSwap) == 0
